@@ -17,8 +17,10 @@ import os, re
 from vlib import Case, Stream, BUILD, model_cmd
 
 ID = "C19"
-LEAN_MODULES = ["HgVerif.Props.C19"]
-THEOREMS = [
+LEAN_MODULES = ["HgVerif.Props.C19", "HgVerif.Model.TieC19", "HgVerif.Model.Extracted"]
+USES_EXTRACT = True
+THEOREMS = ["HgVerif.Tie.tie_rankLarge", "HgVerif.Tie.tie_rankScalarVar", "HgVerif.Tie.tie_rankCollectTsDefault", "HgVerif.Tie.tie_rankCollectScalarDefault", "HgVerif.Tie.tie_rankDecayDiv", "HgVerif.Tie.tie_rankDecayFloor", "HgVerif.Tie.tie_rankTslSizeVarBonus", "HgVerif.Tie.tie_rankTslAnySizeBonus", "HgVerif.Tie.tie_rankTswAnyWindowBonus",
+    
     "HgVerif.Dispatch.resolve_perm_invariant",
     "HgVerif.Dispatch.P_C19_holds",
     "HgVerif.Dispatch.winner_unique_min",
